@@ -548,9 +548,12 @@ def same_predicate(ctx):
                     ctx.check(dflt == "false", f"{short(on)}/unreadable-name-is-not-workdir", [site(b, bb)],
                               "a name the work-dir predicate cannot read counts as the work directory: such directories are pruned from every listing (or such events ignored)")
             if b.ret == "bool":
+                def is_name_test(d):
+                    return d[0] == "call" and (d[1].endswith("::eq") or "PartialEq" in d[1]) and any(any(a[0] == "constdef" and a[1].endswith("WORK_DIR_NAME") for a in x) for x in d[2])
+                Geq = guard_region(b, is_name_test, True)
                 for (bb, st) in [(blk["id"], st) for blk in b.normal_blocks() for st in blk["stmts"] if st["lhs"]["local"] == 0 and not st["lhs"]["proj"]]:
-                    if st["rv"]["k"] == "use" and const_val(st["rv"]["op"]) == "true":
-                        ctx.bad(f"{short(on)}/constant-true", [site(b, bb)], "the work-dir predicate returns a constant `true` on some path")
+                    if st["rv"]["k"] == "use" and const_val(st["rv"]["op"]) == "true" and bb not in Geq:
+                        ctx.bad(f"{short(on)}/constant-true", [site(b, bb)], "the work-dir predicate returns a constant `true` on a path that has not compared a name with the work-dir name")
 
 
 @rule("C15.PREDICATE-ATOMS", ["C15"], """the extension predicate accepts a file when there is no filter or when its *file name* ends with one of the extensions""", "K2", floor=2)
